@@ -102,6 +102,33 @@ let parse_res (t : ostr) : res =
                  | ["eof"] -> EOFError | ["kbd"] -> KeyboardInterrupt | ["type"] -> TypeErrorE | ["value"] -> ValueErrorE
                  | _ -> failwith ("bad exn " ^ body))
   | _ -> failwith ("bad answer " ^ t)
+let sbody (t : ostr) : n list = match parse_v t with VS x -> x | _ -> failwith "s expected"
+let parse_op (t : ostr) : op =
+  match String.split_on_char ':' t with
+  | ["lexists"; p] -> Lexists (sbody p) | ["exists"; p] -> Exists (sbody p) | ["isdir"; p] -> Isdir (sbody p)
+  | ["isfile"; p] -> Isfile (sbody p) | ["islink"; p] -> Islink (sbody p) | ["ismount"; p] -> Ismount (sbody p)
+  | ["access"; p] -> Access (sbody p) | ["stat"; p] -> Stat (sbody p) | ["getsize"; p] -> Getsize (sbody p)
+  | ["realpath"; p] -> Realpath (sbody p) | ["abspath"; p] -> Abspath (sbody p) | ["listdir"; p] -> Listdir (sbody p)
+  | ["readtext"; p] -> ReadText (sbody p) | ["listmounts"] -> ListMounts
+  | ["makedirs"; p; m] -> Makedirs (sbody p, (match parse_v m with VN x -> x | _ -> failwith "n"))
+  | ["openexcl"; p] -> OpenExcl (sbody p) | ["write"; b] -> WriteFd (sbody b) | ["close"] -> CloseFd
+  | ["move"; a; b] -> Move (sbody a, sbody b) | ["remove"; p] -> Remove (sbody p) | ["rmtree"; p] -> Rmtree (sbody p)
+  | ["now"] -> Now
+  | ["randint"; a; b] -> RandInt ((match parse_v a with VZ x -> x | _ -> failwith "z"), (match parse_v b with VZ x -> x | _ -> failwith "z"))
+  | ["input"; p] -> Input (sbody p) | ["isatty"] -> IsAtty
+  | ["out"; e; t] -> Out (e = "b1", sbody t)
+  | ["log"; lv; ex; t] -> Log ((match lv with "W" -> WARNING | "I" -> INFO | _ -> DEBUG), ex = "b1", sbody t)
+  | _ -> failwith ("bad op " ^ t)
+let parse_res_any (t : ostr) : res = if t = "u" then RUnit else parse_res t
+(* a trace: op|answer tokens alternate *)
+let rec parse_trace (l : ostr list) : (op * res) list =
+  match l with o :: a :: r -> (parse_op o, parse_res_any a) :: parse_trace r | _ -> []
+(* index of the first rejected operation, or "ok" *)
+let run_monitor (step : 's -> op -> res -> 's option) (init : 's) (tr : (op * res) list) : ostr =
+  let rec go s i l = match l with
+    | [] -> "ok"
+    | (o, r) :: l' -> (match step s o r with Some s' -> go s' (i + 1) l' | None -> "reject:" ^ string_of_int i) in
+  go init 0 tr
 let prun (pres : 'a -> ostr) ((tr, out) : (op * res) list * 'a outcome) : ostr =
   let ops = String.concat ";" (List.map (fun (o, _) -> pop o) tr) in
   let oc = match out with Done a -> "done:" ^ pres a | Uncaught e -> "uncaught:" ^ pexn e | Stuck -> "stuck" in
@@ -195,6 +222,22 @@ let () =
                         ro_trash_dir = opt_of_str (sv td); ro_overwrite = bv ow;
                         rs_environ = pairs_of (lv env); rs_uid = nv uid } in
               prun pn (run_oracle (restore_main o) (split_answers answers))
+          | "monitor" :: name :: param :: trace ->
+              let tr = parse_trace trace in
+              (match name with
+               | "order" -> run_monitor (order_step (param = "b1")) [] tr
+               | "refuse" -> run_monitor (refuse_step (param = "b1")) [] tr
+               | "put" -> run_monitor put_step put_init tr
+               | "select" -> run_monitor sel_step (O, Before) tr
+               | "consent" -> run_monitor (consent_step (match param with "n1" -> Some true | "n2" -> Some false | _ -> None)) Unknown tr
+               | "decision" ->
+                   (match String.split_on_char '|' param with
+                    | [days; envd] ->
+                        let d = if days = "N" then None else Some (zv days) in
+                        let en = if envd = "N" then None else strptime_body (sv envd) in
+                        run_monitor (decision_step d en) { d_last = None; d_approved = [] } tr
+                    | _ -> failwith "decision param")
+               | _ -> failwith ("unknown monitor " ^ name))
           | f :: args -> dispatch f (List.map parse_v args)
         with e -> "!ERR " ^ Printexc.to_string e in
       print_string out; print_char '\n'
